@@ -61,7 +61,8 @@ def describe (c : Cal) : String :=
 def handle (s : St) (op : String) (args : List Sexp) : Option (St × String) := do
   match op, args with
   -- `newd`: the same calendar, the caller handed the holidays over as `datetime.date` / datetimes with a time of day
-  | "new", [t0, t1, we, hol, adj] | "newd", [t0, t1, we, hol, adj] =>
+  -- `newt`: the same calendar, the caller handed the range endpoints over with a time of day (a range endpoint is a day)
+  | "new", [t0, t1, we, hol, adj] | "newd", [t0, t1, we, hol, adj] | "newt", [t0, t1, we, hol, adj] =>
       let t0 ← t0.toInt?; let t1 ← t1.toInt?; let we ← intList we; let hol ← intList hol
       if degenerate we then none
       let c0 : Cal := { t0, t1, weekend := we, hol, adj := .m, month := ymKey }
